@@ -69,9 +69,11 @@ def upsert (side : Side) (levels : List Level) (update : List Level) : List Leve
   update.foldl (fun acc u => upsertSingle side u acc) levels
 
 /-- `OrderBookSide::bids` / `::asks` (`books/mod.rs:148-157`, `176-185`): collect and sort by price
-(descending for bids, ascending for asks). `sort_unstable_by` is modelled by a stable sort; the
-relative order of equal-priced levels is unspecified in Rust (the correspondence compares the
-stored levels of every event, and every theorem about updates holds for *any* order). -/
+(descending for bids, ascending for asks). The code calls `slice::sort_by` (`:154`, `:182`, since
+`911b9f8`; earlier `sort_unstable_by`), which is documented stable; `List.mergeSort` is stable too,
+so equal-priced levels keep their input order in the code and in the model alike (the
+correspondence compares the stored levels of every event, and every theorem about updates holds
+for *any* order). -/
 def sortLevels (side : Side) (levels : List Level) : List Level :=
   levels.mergeSort side.le
 
